@@ -1,5 +1,6 @@
 import SuironVerif.Model.Codec
 import SuironVerif.Model.Native
+import SuironVerif.Model.Driver
 open Suiron Suiron.Codec
 
 def FUEL : Nat := 100000
@@ -34,6 +35,7 @@ def handle (op : String) (toks : List String) : String :=
         | none => "decode-error"
       | none => "decode-error"
     | _ => "decode-error"
+  | "engine" => Driver.handleEngine toks
   | "show" =>
     match decTerm toks with
     | some (t, _) => "ok A:" ++ hex (Term.show Native.showF64 t)
@@ -46,7 +48,13 @@ partial def loop (h : IO.FS.Stream) (out : IO.FS.Stream) : IO Unit := do
   let toks := (line.trimAscii.toString.splitOn " ").filter (· ≠ "")
   match toks with
   | "CASE" :: id :: op :: rest =>
-    out.putStrLn ("MODEL " ++ id ++ " " ++ handle op rest)
+    -- a handler may append further records after a newline ("SPEC ..."): give them the case id too
+    let res := handle op rest
+    match res.splitOn "\nSPEC " with
+    | [m, s] => do
+      out.putStrLn ("MODEL " ++ id ++ " " ++ m)
+      out.putStrLn ("SPEC " ++ id ++ " " ++ s)
+    | _ => out.putStrLn ("MODEL " ++ id ++ " " ++ res)
   | _ => pure ()
   loop h out
 
